@@ -9,7 +9,7 @@
    consumed (POSTCONDITION AllConsumed); each event's verdict (ok / skip / a
    diagnosis) goes to the verdict file, so that one rejected event never hides
    the rest of the trace. *)
-EXTENDS SemOverflow, AsCodedOverflow, SemScaled, SemRounding, AsCodedRounding, SemElastic, SemBits, SemSqrt, SemFraction, SemWide, TLC, TLCExt, Json, IOUtils, CSV
+EXTENDS SemOverflow, AsCodedOverflow, SemScaled, SemRounding, AsCodedRounding, SemElastic, SemBits, SemSqrt, SemFraction, SemWide, SemText, TLC, TLCExt, Json, IOUtils, CSV
 
 Tr == ndJsonDeserialize(IOEnv.TRACE)
 Insts == ndJsonDeserialize(IOEnv.INSTS)
@@ -52,6 +52,8 @@ Verdict0(e, i) ==
       [] e.e = "WFromFloat" -> JudgeWFromFloat(e, i)
       [] e.e = "WLimits" -> JudgeWLimits(e, i)
       [] e.e = "WText" -> JudgeWText(e, i)
+      [] e.e = "Tc" -> JudgeTc(e, i)
+      [] e.e = "TcStatic" -> JudgeTcStatic(e, i)
       [] e.e = "RDiv" -> JudgeRDiv(e, i)
       [] e.e = "ROp" -> JudgeROp(e, i)
       [] e.e = "RConv" -> JudgeRConv(e, i)
